@@ -419,7 +419,7 @@ def check(prop, tier, seed, replay):
         return do_replay(prop, cfg, profiles, replay, have_driver)
 
     # second route (thorough tier): the driver's requests evaluated inside Coq by vm_compute (tools/vmroute.py)
-    if tier == "thorough" and have_driver and prop in ("C13", "C14", "C15", "C18", "C19") and not replay:
+    if tier == "thorough" and have_driver and prop in ("C13", "C14", "C15", "C18", "C19", "C20") and not replay:
         rc, o = sh([sys.executable, os.path.join(ROOT, "tools", "vmroute.py"), prop], timeout=2400)
         checker_cmds.append("python3 tools/vmroute.py %s" % prop)
         notes.append(o.strip().split("\n")[-1][:400])
